@@ -170,6 +170,15 @@ def check_property(prop, tier, seed, jobs=16):
     # ---- data lemmas / property-level lemmas (in process)
     from . import datalemmas
     dl = datalemmas.run(eng, prop, tier)
+    # ---- executable twins of the lemma library (assumptions are at least exercised on every run)
+    lemma_twins = None
+    if prop in ("C15", "C03"):
+        from . import strings
+        n_vals, bad = strings.check_twins(seed)
+        lemma_twins = {"values": n_vals, "disagreements": len(bad)}
+        if bad:
+            print(f"CHECKER-ERROR lemma library disagrees with CPython: {bad[:3]}", file=sys.stderr)
+            return 3
     # ---- triage obligations
     n_obl = n_dis = 0
     failed = []
@@ -326,6 +335,7 @@ def check_property(prop, tier, seed, jobs=16):
         "known_findings_hit": kf_out,
         "violations": violations,
         "data_lemmas": dl.get("summary"),
+        "lemma_library_twins": lemma_twins,
         "explanation": explanation_for(prop, n_obl, n_dis, bounded),
     }
     if bounded is not None:
